@@ -391,7 +391,31 @@ func checkBuildLiterals(c *Ctx, r *Report) {
 								okOp := false
 								for _, fv := range f { // the embedded Operation struct is a promoted (unnamed) selector
 									if ld, ok := fv.(*ssa.UnOp); ok {
-										if call, ok := ld.X.(*ssa.Call); ok && call.Call.IsInvoke() && call.Call.Method.Name() == "Operation" {
+										// *c.Operation(), called where the literal is built or once before the
+										// retried operation and kept in a variable it captures
+										src := p.Resolve(ld.X)
+										for i := 0; i < 4; i++ {
+											l2, isLd := src.(*ssa.UnOp)
+											if !isLd || l2.Op != token.MUL {
+												break
+											}
+											var cell *ssa.Alloc
+											switch a := l2.X.(type) {
+											case *ssa.FreeVar:
+												cell, _ = freeVarBinding(a).(*ssa.Alloc)
+											case *ssa.Alloc:
+												cell = a
+											}
+											if cell == nil {
+												break
+											}
+											sv := singleStore(cell)
+											if sv == nil {
+												break
+											}
+											src = sv
+										}
+										if call, ok := src.(*ssa.Call); ok && call.Call.IsInvoke() && call.Call.Method.Name() == "Operation" {
 											okOp = true
 										}
 									}
